@@ -235,9 +235,18 @@ fn best_paths<K: Kmer>(o: &mut Outcome, stage: &str, g: &DebruijnGraph<K, u16>, 
     }
     // beam search: walk validity only
     if g.len() > 0 {
-        for beam in [1usize, 3] {
+        for beam in [1usize, 3, 8] {
             let path = g.max_path_beam(beam, |d| *d as f32, |_| true);
             o.transitions += 1;
+            // a beam path may only repeat a node as its very last entry (the step that closes a cycle ends the path)
+            {
+                let mut seen = BTreeSet::new();
+                for (pos, (n, _)) in path.iter().enumerate() {
+                    if !seen.insert(*n) && pos + 1 != path.len() {
+                        o.fail("beam-path-repeats-node", format!("[{}] max_path_beam({}) = {:?}: node {} is visited again before the end of the path", stage, beam, path, n));
+                    }
+                }
+            }
             if !path.is_empty() && !spelled(&path) {
                 o.fail("beam-path-misspelled", format!("[{}] max_path_beam({}) = {:?}: sequence_of_path does not spell the walked nodes' k-mers", stage, beam, path));
             }
